@@ -350,6 +350,8 @@ def c08(run):
     run.cov["rule"] = ("search events: search / search_with_offset on table-defined monotone workloads: every monotone w:1..4->0..4 "
                        "(thorough 1..5->0..5) x dedicated / periodic / constrained (P<=3, thorough 4) / two user staircases x specialised "
                        "and default service_time x in-window offsets 0..4 x limits {1,2,3,5,8,13}, plus seeded random tables of length<=60; "
+                       "search_trace events: the same calls with a workload closure that logs every interval length it is asked about -- the recorded "
+                       "iteration must be a run of the machine of MCFixedPoint; "
                        "maxrt events: max_response_time on every sequence of length<=4 over 3 Ok values and 2 errors; "
                        "non-trivial = the workload is positive somewhere (demand exists); distinct = canonical JSON of the input")
     run.assumptions += ["offsets are inside the busy window (premise of C08)", "supplies are 1-Lipschitz with sbf(0)=0"]
@@ -357,6 +359,10 @@ def c08(run):
                 nontrivial=lambda e: e["op"] == "maxrt" or max(e["in"]["w"]) > 0)
     # R3: the iteration of the implementation, as a state machine, computes Lfp (and terminates)
     mc_stage(run, "kleene-iteration", "MCFixedPoint.tla", "MCFixedPoint.cfg")
+    # the same machine at magnitudes of 2^32..2^58: the workload closure logs what it is asked and what it answers; every
+    # recorded iteration must be a run of the machine (each iterate the exact supply inverse of the workload, stop with Ok at
+    # the first non-increase, with Err only beyond the limit), decided by Apalache with the closed forms of ClosedForms.tla
+    bigtrace_stage(run, "large-magnitude-iterations", "bigsearch")
 
 
 @check("C06")
